@@ -1169,6 +1169,8 @@ def cases(tier, seed):
     for n in range(1, 7):
         for k in range(0, n + 2):
             add("dicke.structure", dict(n=n, k=k), "dicke/%s" % ("k<=n" if k <= n else "k>n"), n >= 2)
+    for n, k in ((8, 1), (9, 1), (9, 4), (10, 2), (11, 1)):  # more than 8 qubits: basis-state indices no longer fit one byte
+        add("dicke.structure", dict(n=n, k=k), "dicke/more-than-8-qubits")
     # Werner / isotropic parameter grids: end points, thresholds +- eps, interior points, just outside
     for d in range(2, 7):
         th = 1.0 / d
